@@ -47,14 +47,14 @@ Variable cf : cfg.
 Definition wcap : N := c_qsize cf.
 
 Definition w_pc (s : wstate) (t : nat) : wpc := nth t (w_pcs s) WIdle.
-Definition w_k (s : wstate) (i : nat) : kpc := nth i (w_wk s) KExit.
+Definition w_k (s : wstate) (i : nat) : kpc := nth i (w_wk s) KIdle.
 
 Definition w_set_pc (s : wstate) (t : nat) (p : wpc) : wstate :=
   WSt (w_now s) (w_closed s) (w_slots s) (w_queue s) (set_nth t p WIdle (w_pcs s)) (w_wk s)
       (w_close s) (w_subs s) (w_runs s) (w_clos s).
 
 Definition w_set_k (s : wstate) (i : nat) (p : kpc) : wstate :=
-  WSt (w_now s) (w_closed s) (w_slots s) (w_queue s) (w_pcs s) (set_nth i p KExit (w_wk s))
+  WSt (w_now s) (w_closed s) (w_slots s) (w_queue s) (w_pcs s) (set_nth i p KIdle (w_wk s))
       (w_close s) (w_subs s) (w_runs s) (w_clos s).
 
 Definition w_with (s : wstate) (slots : N) (q : list N) : wstate :=
@@ -94,6 +94,7 @@ Definition w_thread_step (s : wstate) (t : nat) (alt : bool) : wstate :=
   end.
 
 Definition w_worker_step (s : wstate) (i : nat) (alt : bool) : wstate :=
+  if negb (Nat.ltb i (length (w_wk s))) then s else   (* there are exactly cfg.Workers workers *)
   match w_k s i with
   | KIdle =>
       if alt then (if w_closed s then w_set_k s i KDrain else s)
